@@ -5,6 +5,7 @@ result, in-place update of a shared tensor or a view of it, re-use of a shared t
 Outcome must be InvalidBackprop, or exactly the gradients of the computation as recorded (oracle: NumPy twin, as in C05).
 """
 import itertools
+import os
 import sys
 
 import numpy as np
@@ -28,9 +29,9 @@ PREFIXES = {
 # tensors upstream of L (a view that only the OTHER graph went through is not: its gradient legitimately reads None)
 CHECK_NAMES = {"zview": ("x", "k"), "constshared": ("x",)}
 EVENTS = ["z.backward()", "z.clear_graph()", "x[...] = c1", "x[:1] = c1", "xv[...] = c1", "x *= c2", "w = x * c2", "w = k * c2",
-          "x.null_grad()", "w = x[::-1]", "w.backward()", "m[...] = c1", "w = m * c2", "k[1:] = c1", "rawwrite(x)", "rawwrite(k)", "rawwrite(m)", "rawwrite(xv)", "rawwrite(kc)"]
+          "x.null_grad()", "w = x[::-1]", "w.backward()", "m[...] = c1", "w = m * c2", "k[1:] = c1", "rawwrite(x)", "rawwrite(k)", "rawwrite(m)", "rawwrite(xv)", "rawwrite(kc)", "x.reshape(-1)", "m.reshape(-1)"]
 EVENTS_Q = ["z.backward()", "z.clear_graph()", "x[...] = c1", "x[:1] = c1", "xv[...] = c1", "w = x * c2", "x.null_grad()", "w.backward()",
-            "m[...] = c1", "w = m * c2", "rawwrite(x)", "rawwrite(k)", "rawwrite(m)", "rawwrite(kc)"]
+            "m[...] = c1", "w = m * c2", "rawwrite(x)", "rawwrite(k)", "rawwrite(m)", "rawwrite(kc)", "x.reshape(-1)"]  # the last: a view whose result is dropped at once
 
 
 class Setup:
@@ -184,9 +185,11 @@ def signature(pname, lines, msg, kind="grad"):
     shared tensors, and a shared tensor is then RE-USED in a new operation before L.backward(); the re-use refills the
     consumer set, which defeats the only staleness test (Operation.backward: `if not var._ops: raise`)"""
     clear = [i for i, e in enumerate(lines) if e in ("z.backward()", "z.clear_graph()", "w.backward()")]
-    reuse = [i for i, e in enumerate(lines) if e.startswith("w = ")]
+    reuse = [i for i, e in enumerate(lines) if e.startswith("w = ") or e.endswith(".reshape(-1)")]
     if kind == "grad" and clear and any(r > min(clear) for r in reuse):
-        return "clear->reuse:silent-wrong-gradient"
+        # keyed by the exact history: known_findings.json lists the histories of this pattern that give a wrong gradient on the
+        # pinned tree; a history of the same pattern that is NOT listed (it was correct there) is reported as a violation
+        return "clear->reuse:" + "; ".join(lines)
     return "%s:%s:%s" % (pname, kind, msg[:50])
 
 
@@ -213,6 +216,9 @@ def run_case(spec, tier):
             res["notes"].append("%s: %s" % ("; ".join(lines), msg))
             continue
         sig = signature(pname, lines, msg, kind)
+        if os.environ.get("VERIF_C09_DUMP") and sig.startswith("clear->reuse:"):
+            with open(os.environ["VERIF_C09_DUMP"], "a") as f:
+                f.write(sig + "\n")
         known = common.match_known(common.load_known(PROP), sig)
         if known is not None and res.get("known_confirmed"):
             res["violations"].append({"signature": sig, "replay": None, "summary": "(same known finding) `%s`" % "; ".join(lines)})
